@@ -37,7 +37,7 @@ def gen_rowsel(E, p, R, B):
     if rk in ("all", "ellipsis"):
         return {"t": rk}
     if rk == "int":
-        return {"t": "int", "i": E.int("ri", -B, B)}
+        return {"t": "int", "i": E.int("ri", -B, B), "np": bool(p.get("npint"))}
     if rk == "slice":
         return gen_bounds(E, "rs", {"s": p.get("rstep"), "pres": p.get("rpres"), "huge": p.get("huge")}, p.get("RB", B))
     if rk in ("list", "array"):
@@ -52,7 +52,7 @@ def gen_colsel(E, p, B):
     if ck == "none":
         return {"t": "none"}
     if ck == "int":
-        return {"t": "int", "j": E.int("cj", -B, B)}
+        return {"t": "int", "j": E.int("cj", -B, B), "np": bool(p.get("npint"))}
     return gen_bounds(E, "cs", {"s": p.get("cstep"), "pres": p.get("cpres"), "huge": p.get("huge")}, B)
 
 
@@ -131,6 +131,10 @@ def jobs(tier, seed):
         out.append(dict(base, ck="slice", cstep=s_, rk="all", huge=True, R=2, L=2))          # slice bounds around +-2^40
         out.append(dict(base, ck="none", rk="slice", rstep=s_, huge=True, R=2, L=2))
     out.append(dict(base, ck="slice", cstep=None, cpres=[(1, 0)], rk="array", k=4, R=4, L=1, B=4))
+    # integer indices given as numpy integer scalars
+    for rk_, ck_ in (("int", "none"), ("int", "int"), ("int", "slice"), ("all", "int"), ("mask", "int"), ("ellipsis", "int")):
+        out.append(dict(base, rk=rk_, ck=ck_, cstep=None, npint=True, R=2))
+    out.append(dict(dict(base, ck="int", npint=True), rk="slice", rstep=None, rpres=[(1, 0)], RB=3, R=2))
     # rows only: every presence pattern of the slice bounds
     for rk in rowkinds + [dict(rk="slice", rstep=s) for s in steps]:
         out.append(dict(base, ck="none", **rk))
@@ -207,3 +211,72 @@ def jobs_onview(tier, seed):
 
 
 harness("C02.onview", jobs_onview, sym_onview, conc_onview)
+
+
+# ------------------------------------------------------------------ element-wise pairs ra[rows_array, cols_array]
+def _pairs_run(RaggedArray, lens, data, rows, cols):
+    ra = mk_ragged(RaggedArray, data, lens)
+    ri, ci = common.arr(rows, "int64"), common.arr(cols, "int64")
+    res = ra[ri, ci]
+    return res, ri, ci, ra          # the index arrays belong to the caller: observed afterwards
+
+
+def sym_pairs(E, p, kf):
+    import z3
+    from symx import specs
+    from npstructures import RaggedArray
+    R = E.concretize(E.int("R", 1, p["R"]))
+    lens = [E.int(f"l{r}", 0, p["L"]) for r in range(R)]
+    S = E.concretize(z3.Sum(lens))
+    data = [E.int(f"d{q}", -DV, DV) for q in range(S)]
+    k = E.concretize(E.int("k", 1, p["k"]))
+    np.EXACT32[0] = bool(p.get("huge")) and common.SYMBOLIC
+    B = p["B"] if not p.get("huge") else (1 << 32) + B0
+    rows = [E.int(f"pr{j}", -B, B) for j in range(k)]
+    cols = [E.int(f"pc{j}", -B, B) for j in range(k)]
+    if p.get("huge"):
+        for v in rows + cols:
+            E.assume(z3.Or(z3.And(v >= -B0 - 1, v <= B0 + 1), z3.And(v >= (1 << 32) - B0, v <= (1 << 32) + B0), z3.And(v >= -(1 << 32) - B0, v <= -(1 << 32) + B0)))
+    got = outcome(lambda: _pairs_run(RaggedArray, lens, data, rows, cols))
+    case = dict(p=p, lens=lens, data=data, rows=rows, cols=cols)
+    starts, _ = specs.prefix_starts(lens)
+    D = specs.store_of(data)
+    oks, vals = [], []
+    for r, c in zip(rows, cols):
+        rr = z3.If(r < 0, r + R, r)
+        ok_r = z3.And(rr >= 0, rr < R)
+        ln = specs.select_chain(lens, z3.If(ok_r, rr, 0))
+        cc = z3.If(c < 0, c + ln, c)
+        oks.append(z3.And(ok_r, cc >= 0, cc < ln))
+        vals.append(z3.Select(D, specs.select_chain(starts, z3.If(ok_r, rr, 0)) + cc))
+    allok = z3.And(*oks)
+    if got["k"] == "raise":
+        return dict(goal=z3.Not(allok), got=got, case=case)
+    want = dict(k="tuple", items=[dict(k="array", flat=vals, shape=[k], dtype="int64"), dict(k="array", flat=rows, shape=[k], dtype="int64"),
+                                  dict(k="array", flat=cols, shape=[k], dtype="int64"), dict(k="ragged", flat=data, lens=lens, dtype="int64")])
+    return dict(goal=specs.conj([allok, specs.obs_goal(got, want)]), got=got, case=case)
+
+
+def conc_pairs(case):
+    from npstructures import RaggedArray
+    lens, data, rows, cols = case["lens"], case["data"], case["rows"], case["cols"]
+    got = outcome(lambda: _pairs_run(RaggedArray, lens, data, rows, cols))
+    rws = common.rows_of(data, lens)
+    try:
+        vals = []
+        for r, c in zip(rows, cols):
+            if not -len(rws) <= r < len(rws) or not -len(rws[r]) <= c < len(rws[r]):
+                raise IndexError
+            vals.append(rws[r][c])
+    except IndexError:
+        return got, common.refused()
+    A = common.ref_array
+    return got, dict(k="tuple", items=[A(vals, [len(vals)], "int64"), A(list(rows), [len(rows)], "int64"), A(list(cols), [len(cols)], "int64"), common.ref_ragged(rws, "int64")])
+
+
+def jobs_pairs(tier, seed):
+    q = tier == "quick"
+    return [dict(h="C02.pairs", p=dict(R=2 if q else 3, L=2 if q else 3, k=2, B=3)), dict(h="C02.pairs", p=dict(R=2, L=2, k=1, B=3, huge=True))]
+
+
+harness("C02.pairs", jobs_pairs, sym_pairs, conc_pairs)
